@@ -1,4 +1,5 @@
 import Rustic.Model.Index
+import Rustic.Model.PackU32
 import Driver.Util
 /- Driver channel `c17` — see harness/src/c17.rs for the op-line grammar and the observation format. -/
 namespace Driver.C17
@@ -124,6 +125,18 @@ def handle : List String → String
       let it := if src = "repo" then "na" else iterObs idx
       s!"ok ts={idx.totalSize .tree},{idx.totalSize .data} q={qstr} it={it}"
     | _, _, _ => "bad-op"
+  | ["psize", size, blobs] =>
+    let size? : Option (Option Nat) := if size = "-" then some none else
+      match size.toNat? with
+      | some n => if n < 4294967296 then some (some n) else none
+      | none => none
+    let blobs? := if blobs = "-" then some [] else (blobs.splitOn "+").mapM parseBlob
+    match size?, blobs? with
+    | some sz, some bl =>
+      match Rustic.PackU32.IndexPack.packSizeChecked { id := 0, blobs := bl, size := sz } with
+      | some n => s!"ok {n}"
+      | none => "ok overflow-panic"
+    | _, _ => "bad-op"
   | _ => "bad-op"
 
 end Driver.C17
